@@ -333,6 +333,53 @@ def rule_template_parses(ctx, rep):
                               f"template `{t[:60]}` given to {em.api} is not valid Python")
 
 
+# attributes of libcst nodes that hold layout only (Sequence[EmptyLine] / whitespace): not statements, not expressions
+LAYOUT_ATTRS = {"leading_lines", "lines_after_decorators", "header", "footer", "empty_lines", "lines_after_else"}
+LAYOUT_CTORS = {"EmptyLine", "Comment", "Newline", "TrailingWhitespace", "SimpleWhitespace"}
+# confirmed exception (one named class): the statement line it empties is never the last statement of its block
+FLATTEN_LAYOUT_OK = {
+    "core_codemods.use_walrus_if.UseWalrusIf":
+        "the only line this transformer empties is the assignment folded into the `if` that directly follows it in the same block, so the block keeps "
+        "a statement (the type mismatch is acknowledged in the source)",
+}
+
+
+def rule_flatten_elements(ctx, rep, rule_id="R-NODETYPE"):
+    """clause of R-NODETYPE: what a hook hands back in a FlattenSentinel takes the place of the node in its parent's sequence, so it must be of
+    the parent's element kind; layout-only nodes (EmptyLine, Comment) are not statements: a block reduced to them has no body
+    (`elif debug:` + a comment line -> "expected an indented block")."""
+    from ..derive import ElemSources
+
+    n = 0
+    for fn in ctx.prog.live_functions():
+        if fn.cls is None:
+            continue
+        es = None
+        for c in walk_no_nested(fn.node):
+            if not (isinstance(c, ast.Call) and last_attr(c.func) == "FlattenSentinel" and c.args):
+                continue
+            es = es or ElemSources(ctx, fn, order_matters=True)
+            n += 1
+            bad = None
+            work = [c.args[0]]
+            for leaf, _facts in es.sources(c.args[0]):
+                work.append(leaf)
+            for w in work:
+                for x in ast.walk(w) if w is not None else []:
+                    if isinstance(x, ast.Attribute) and x.attr in LAYOUT_ATTRS:
+                        bad = x
+                    elif isinstance(x, ast.Call) and (last_attr(x.func) or "") in LAYOUT_CTORS:
+                        bad = x
+            if bad is not None and fn.cls.qname in FLATTEN_LAYOUT_OK:
+                rep.instance(rule_id, fn.qname, fn.loc(c), True, detail="flatten-elements", exempt=FLATTEN_LAYOUT_OK[fn.cls.qname])
+                continue
+            rep.check(rule_id, fn.qname, fn.loc(c), bad is None, "flatten-elements",
+                      f"`{unparse(c)[:70]}` puts layout nodes (`{unparse(bad)[:40] if bad is not None else ''}`: empty lines / comments) where the parent expects statements: "
+                      "when they are all that is left of a block, the emitted block has no body and the file no longer parses")
+    if n < 5:
+        raise AnalysisError(f"only {n} FlattenSentinel constructions found (9 confirmed by hand)")
+
+
 def check(ctx, rep):
     rep.explanation = (
         "Parseability of libcst's output for arbitrary inputs is not decidable here and is declined. Decided instead: the two gaps in "
@@ -344,6 +391,7 @@ def check(ctx, rep):
     from .c02 import rule_nodetype
 
     rule_nodetype(ctx, rep)
+    rule_flatten_elements(ctx, rep)
     rule_bare_genexp(ctx, rep)
     rule_template_parses(ctx, rep)
     from .c07 import rule_no_dup_keyword
@@ -352,6 +400,10 @@ def check(ctx, rep):
     from .c03 import rule_codec_agree
 
     rule_codec_agree(ctx, rep)
+    from .c18 import rule_metadata_original
+
+    # names chosen without the scope metadata collide with names in use (walrus target = comprehension variable: SyntaxError)
+    rule_metadata_original(ctx, rep)
     rep.not_covered += [
         "validity of libcst code generation for arbitrary trees (the core of the property)",
         "node removal / flattening inside blocks (RemovalSentinel leaving an empty suite) — libcst raises, the pipeline records a failure",
